@@ -210,7 +210,7 @@ def run(ctx: Ctx) -> None:
     quick = ctx.quick
     k = 2 if quick else 3
     r = 2
-    qs = list(queries(k, engine_extras=True))
+    qs = list(queries(k, engine_extras=True, limit_extras=True))
     if not quick:
         pass
     res = ctx.run_shards(worker, ctx.jobs * 4, qs, r, quick)
